@@ -417,6 +417,20 @@ func (x *Exec) run(a AState) []Exit {
 			default:
 				_ = idx
 				var next []*pstate
+				// a value that is (re)defined here invalidates facts learnt about its previous incarnation
+				// (loop iterations): facts are keyed by value name
+				if _, isPhi := in.(*ssa.Phi); isPhi {
+					// phi facts are (re)established on block entry
+				} else if v, ok := in.(ssa.Value); ok {
+					nm := v.Name()
+					for _, s := range states {
+						for k := range s.facts {
+							if k == nm || (len(k) > len(nm) && k[:len(nm)] == nm && k[len(nm)] == '#') {
+								delete(s.facts, k)
+							}
+						}
+					}
+				}
 				for _, s := range states {
 					next = append(next, x.step(in, s)...)
 				}
